@@ -237,6 +237,8 @@ def c07(tier):
     vg.vg2c(P, C)
     # ... and the axis lengths of the image against each other: their product sizes the coefficient array
     vg.vg2e(P, C)
+    # the first-pixel array of every pixel read is as long as the image has axes, and the image has no more axes than cfitsio handles
+    vg.vg2f(P, C)
     # 'on every table that a read returns, evaluation is memory-safe': the stack arrays sized by the order need the order bounded
     kb.kb9(P, C)
     # a crafted file cannot make the reader transfer more elements than the array it allocated holds
